@@ -74,6 +74,7 @@ def run(scn, stats):
     labels = set()
     reran = collections.Counter()  # (task, item) -> failed attempts that were re-executed
     owed = set()  # failed executions selected by a rerun
+    skip_executed = False
     rounds = 0
     skip_twin = False
     try:
@@ -203,8 +204,17 @@ def run(scn, stats):
                 skip_twin = True
                 labels.add("late-handled-failure-rerun")
             late_failed.clear()
+            # (an explicitly requested execution that had succeeded - the "descendant" that in fact ran on
+            # another branch - is re-executed because it was asked for: discounted like the failed ones)
+            asked = failed_execs | {(x[0], x[1]) for x in (tasks or [])}
+            extra_asked = {(x[0], x[1]) for x in (tasks or [])} - failed_execs
+            if any((t, rt_) in extra_asked and c > n_disp_before.get((t, rt_, i), 0) for (t, rt_, i), c in collections.Counter((t, rt_, i) for t, rt_, i in drv.dispatched).items()):
+                # a succeeded execution was re-executed on request: whatever follows from it runs again too,
+                # which the clean run does not show - the executed multisets are not compared then
+                skip_executed = True
+                labels.add("succeeded-execution-rerun-on-request")
             for (t, rt_, i), c in collections.Counter((t, rt_, i) for t, rt_, i in drv.dispatched).items():
-                if (t, rt_) in failed_execs and n_disp_before.get((t, rt_, i), 0) > 0 and c > n_disp_before[(t, rt_, i)]:
+                if (t, rt_) in asked and n_disp_before.get((t, rt_, i), 0) > 0 and c > n_disp_before[(t, rt_, i)]:
                     reran[(t, i)] += c - n_disp_before[(t, rt_, i)]
             # with-items: without reset_items only the items that had not succeeded run again, with it all do
             disp_now = collections.Counter((t, rt_, i) for t, rt_, i in drv.dispatched)
@@ -268,7 +278,7 @@ def run(scn, stats):
         for key, c in reran.items():
             a[key] -= c
         b = executed(twin)
-        if +a != +b:
+        if +a != +b and not skip_executed:
             raise Violation("executed-differs-from-clean-run", dict(info, rerun_run=sorted((+a).items()), clean_run=sorted((+b).items()), discounted=sorted(reran.items()), history=hist[-40:]))
         drv.apply({"op": "output"})
         twin.apply({"op": "output"})
